@@ -13,12 +13,12 @@ G = "runtime monitoring, Engine G: "
 T = "runtime monitoring, Engine T: "
 CHECKS = {
  "C01": ("sched+gen", S+"start/end stamps from one atomic clock inside harness job bodies, checked after quiescence against the scenario's dependency lists, with seeded perturbation at verif hook points, plus an online shadow scheduler fed by the loop's hook events (a job is handed to a worker once, only when every dependency has a result); " + G + "stub call log vs. the abstract program's dependencies (providers, predicates, element calls of End hooks) on freshly generated code",
-         "Held on every observed execution: a dependent never started before its dependency ended ok, no job/function ran twice; scheduler scenarios (DAGs with duplicate deps, late enqueue, one job with more than 65536 unfinished dependencies, both modes, N=1..64) and generated flows/parallels (also two directives per file, nested and simultaneous executions).",
+         "Held on every observed execution: a dependent never started before its dependency ended ok, no job/function ran twice; scheduler scenarios (DAGs with duplicate deps, late enqueue, one job with more than 65536 unfinished dependencies, both modes, N=1..64) and generated flows/parallels (also two directives per file, nested and simultaneous executions, values of unnamed struct/slice/func/interface types).",
          "Trusted: harness bodies/stubs and their clock; the Go runtime. Interleavings reached = OS scheduling + hook perturbation + stub delays.", "3/C01"),
- "C02": ("gen", G+"provenance-hash tokens through freshly generated flow code, compared call by call (arguments, multiplicity, Results) with a reference interpreter written from the statement; each abstract flow printed in 3 listing/option orders; 4/8/32 simultaneous executions of the same directive from as many goroutines, each judged on its own",
+ "C02": ("gen", G+"provenance-hash tokens through freshly generated flow code, compared call by call (arguments, multiplicity, Results) with a reference interpreter written from the statement; each abstract flow printed in 3 listing/option orders, a third of the multi-result flows with two cff.Results options; 4/8/32 simultaneous executions of the same directive from as many goroutines, each judged on its own",
          "Held on every observed execution of every generated flow (all spellings/value-type kinds of the grammar, concurrency default..64, delays).",
          "Programs outside the generator's grammar are not reached; simultaneous executions only for programs whose functions can all find their execution without a global (ctx parameter, captured handle or a non-zero input token).", "3/C02"),
- "C03": ("sched+gen", S+"exact in-flight counter in job bodies, goroutine census from runtime.Stack while N bodies are held on a gate, N-party barrier after Goexit jobs decided by the stuck-state detector; " + G + "in-flight counter in stubs vs. the directive's limit",
+ "C03": ("sched+gen", S+"exact in-flight counter in job bodies, goroutine census from runtime.Stack while N bodies are held on a gate, N-party barrier after Goexit jobs decided by the stuck-state detector, worker-goroutine starts counted per scheduler at the hook and compared with limit + jobs that killed their goroutine in every scenario (also when jobs hand on the error of a nested scheduler whose job killed its goroutine); " + G + "in-flight counter in stubs vs. the directive's limit",
          "In-flight high-water mark <= limit in every execution; scheduler goroutines <= N+2 with up to 10^5 jobs; N-party barrier completes after 0/1/N/3N Goexit jobs.",
          "Census is one sample per wide scenario, made decisive by holding every running body on the gate. Generated level: wide programs (6..25 independent functions, mostly without cff.Concurrency) held until the limit is saturated plus 3 ms.", "3/C03"),
  "C04": ("gen", G+"every execution runs under recover() in a child process whose death is attributed to its last case; returned error inspected with errors.As(*cff.PanicError) and Value compared with the value observed at the panicking stub",
@@ -30,18 +30,18 @@ CHECKS = {
  "C06": ("sched+gen", S+"goroutine census after quiescence (NumGoroutine vs. baseline, then runtime.Stack filtered on goroutines created by the scheduler, stable over three dumps); " + G + "same census after every generated-code execution",
          "After every execution (success, fail-fast, ContinueOnError, cancelled, prompt return with a task still running) the process returned to its goroutine baseline. Found F1 on the pinned tree (fixed).",
          "Leak verdict needs the same blocked scheduler goroutines in three dumps; anything else is inconclusive.", "3/C06"),
- "C07": ("sched+gen", S+"returned error identity vs. unique per-job error values, invocation log, transitive closure from the scenario; " + G + "reference interpreter: failing sets of tasks (errors, panics), returned error matched against observed failing calls, Results sentinels, must-not-call sets",
+ "C07": ("sched+gen", S+"returned error identity vs. unique per-job error values (also bare context sentinels returned by jobs and jobs submitted with an already done context of their own while the scenario's context is live), invocation log, transitive closure from the scenario; " + G + "reference interpreter: failing sets of tasks (errors, panics), returned error matched against observed failing calls, Results sentinels, must-not-call sets",
          "Held on observed fail-fast executions at scheduler and generated-code level.",
          "Goexit scenarios excluded from error-identity clauses.", "3/C07"),
  "C08": ("sched+gen", S+"multierr.Errors(returned error) compared as a multiset of identities with the failed jobs, invocation log vs. transitive closure; " + G + "Parallel programs with cff.ContinueOnError(expr): every function/element called exactly once, bijection between error entries and failing calls, expr=false behaves fail-fast",
-         "Held on observed ContinueOnError executions incl. late enqueue after a dependency failed, chains of invalidation, and task errors with a permissive Is method or unwrapping to context errors. Found F17 (fixed).",
+         "Held on observed ContinueOnError executions incl. late enqueue after a dependency failed, chains of invalidation, task errors with a permissive Is method or unwrapping to context errors, bare context sentinels as task errors, and per-job contexts (a job whose own context is done is skipped, nothing else is). Found F17 (fixed).",
          "With cancellation only the weaker 'context errors or distinct failed tasks' clause is judged.", "3/C08"),
  "C09": ("sched+gen", S+"must-not-start sets derived structurally (depends on cancelling job / submitted after cancel() returned / all workers held until after cancel()), prompt return via stuck-state detector, context marker; " + G + "cancel before the call / inside a task / by helper / prompt-return gate on generated code",
          "Held on observed executions; the must-not-start set includes jobs whose worker was held, before looking at the context, until cancel() had returned; other ready jobs are not judged (the check-then-run window is legitimate).",
          "No timing window is used as a verdict.", "3/C09"),
  "C10": ("gen", G+"exactly-once multiset of (index,element)/(key,value) tokens per collection, End hook start stamp vs. end stamps of all element calls, End hook never after a failed element",
          "Held on every observed execution of generated Parallel programs (sizes nil/0/1/2/3/7/16/64/1000 and 65537+, index/no-index, ctx/err variants, named collection types, generic enclosing functions, the systematic signature matrix with one-failure scenarios). Found F2 (fixed).",
-         "Scratch module is go 1.19 so that loop variables are per-loop, as in cff's own test module.", "3/C10"),
+         "The corpus module says go 1.22; three quarters of the programs pin their file (and hence the generated file) to go1.18/1.20/1.21 in the build constraint, where loop variables are shared by all iterations; the rest runs with per-iteration loop variables.", "3/C10"),
  "C11": ("gen", G+"reference interpreter over predicate outcomes {true,false,panic} x task outcomes {ok,error,panic} with/without FallbackWith; 'predicate starts as soon as its own inputs are there' decided by a gate scenario + stuck-state detector",
          "Held on every observed execution of generated flows with predicates/fallbacks.",
          "Predicates are instrumented only through their stubs.", "3/C11"),
@@ -51,10 +51,10 @@ CHECKS = {
  "C13": ("tool", T+"the cff binary built from the working tree run as a child process per package over Engine G programs, static multi-directive files and hazard templates in base/source-map x auto-instrument; oracle: no Go panic, positioned diagnostic on failure, outputs parse, package type-checks without the tag, AST scan for residual directives",
          "Held on all explored inputs except the recorded known findings F4, F5, F10, F11 (identifier/package shadowing and nested directives); F2, F3, F6, F7, F14, F15, F16, F20 were found and fixed.",
          "Known findings are keyed by (spelling feature, compiler message); a different failure is still reported.", "3/C13"),
- "C14": ("tool", T+"random well-formed flows and every applicable single-defect mutation (12 kinds), each its own package; Slice/Map element/key/value type pairs over an 11-type lattice with the expected verdict computed by go/types.AssignableTo; observed: exit status, diagnostic naming the file, presence of *_gen.go",
+ "C14": ("tool", T+"random well-formed flows and every applicable single-defect mutation (16 kinds, incl. dependency rings that lead to no Results value and no Invoke task), each its own package; Slice/Map element/key/value type pairs over an 11-type lattice with the expected verdict computed by go/types.AssignableTo; observed: exit status, diagnostic naming the file, presence of *_gen.go",
          "Every explored ill-formed directive rejected, every well-formed one accepted - also in in-package test files and in files with two directives. Found F8 and F13 (fixed).",
          "Each mutation introduces exactly one named defect by construction.", "3/C14"),
- "C15": ("gen", G+"every argument expression of generated programs wrapped in a logging identity function (site, goroutine id, stamp): exactly once, in source order, on the caller's goroutine, before the first stub call; 'bare' programs pass every argument as a plain local variable that is overwritten with a recognisable replacement when the first user function is entered (any replacement seen later = late evaluation); user variables named like generated identifiers carry the Params values",
+ "C15": ("gen", G+"every argument expression of generated programs wrapped in a logging identity function (site, goroutine id, stamp): exactly once, in source order, on the caller's goroutine, before the first stub call; 'bare' programs pass every argument as a plain local variable that is overwritten with a recognisable replacement when the first user function is entered (any replacement seen later = late evaluation), and in half of them every 2nd..4th argument is a call that overwrites the argument variables written before it (a non-call argument read out of source order sees the replacement); user variables named like generated identifiers carry the Params values",
          "Held on every observed execution. Found F9 and (with //line comments between the arguments) F16 (fixed).",
          "cff.Invoke's argument must be constant and is not wrapped.", "3/C15"),
  "C16": ("tool", T+"(b) build constraints over {cff,a,b} (exhaustive to a nesting depth, sampled deeper; go:build, +build, both) with truth tables via go/build/constraint for all 8 assignments; (a) structural AST comparison of source and output with directive sites masked; (c) SHA-256 snapshot of the module before/after with random -file selections",
